@@ -6,8 +6,9 @@ own knots/coefficients; order metamorphic; (c) partition of unity / non-negativi
 """
 import warnings
 import numpy as np
-from vlib.harness import Check, np_rng
+from vlib.harness import Check, np_rng, repo_path
 from vlib.refs import bspline_ref as BR
+from vlib import xwork
 
 EPS32 = float(np.finfo(np.float32).eps)
 
@@ -29,7 +30,9 @@ class C08(Check):
                    'data the quotient is formed in single precision)']
     REQUIRED_COUNTERS = ('long_everyn_points_times_breakpoints_over_2**31', 'abscissae_with_offset_over_1e6_and_knot_spacing_below_1e-7_of_it', 'bkspace_divides_the_range_exactly', 'nan_evaluations_with_outside_points_above_only', 'caller_breakpoint_array_reused_afterwards_order1', 'value_with_precomputed_action', 'mask_changed_on_evaluated_object', 'knots_through_iterfit_unsorted_data', 'canary_sequences', 'single_point_evaluations', 'presorted_evaluations', 'opt_bkspace', 'opt_nbkpts', 'opt_everyn', 'opt_placed', 'opt_bkpt', 'not_cover_adjusted',
                          'points_compared_inside', 'points_outside_checked', 'unsorted_inputs', 'float32_inputs',
-                         'scipy_agreements')
+                         'scipy_agreements',
+                         'online_value_points_compared', 'online_constructions_judged', 'online_value_calls_masked_breakpoints',
+                         'xwork_cases_via_C10', 'xwork_cases_via_C11', 'xwork_suite_runs')
     CASE_CPU_S = 60
 
     def setup(self):
@@ -45,17 +48,170 @@ class C08(Check):
         import pydl.uniq as U
         import pydl
         self.reach.add(pydl.uniq)
+        # online monitors (vlib.xwork): the value / knot clauses evaluated on every construction and evaluation that crosses the
+        # boundary of the class while *other* workloads run (iterfit, combine1fiber, the repository's own tests)
+        self.online = xwork.Online()
+        self.xw = xwork.XWork(self)
+        self.online.attach(self.rec, B.bspline, '__init__', self.online_init, pre=self.online_init_pre)
+        self.online.attach(self.rec, B.bspline, 'value', self.online_value)
 
     def teardown(self):
+        self.xw.teardown()
         self.rec.unwrap_all()
+
+    # ------------------------------------------------------------------ online monitors
+    def online_init_pre(self, a, k):
+        names = ('x', 'nord', 'npoly', 'bkpt', 'bkspread', 'placed', 'bkspace', 'nbkpts', 'everyn')
+        kw = dict(zip(names, a[1:]))
+        kw.update(k)
+        for n in ('bkpt', 'placed'):
+            if kw.get(n) is not None:
+                kw[n] = np.array(kw[n], copy=True)
+        return kw
+
+    def online_init(self, on, a, k, r, kw):
+        s = a[0]
+        x = np.asarray(kw.get('x'))
+        on.count('online_constructions')
+        if x.ndim != 1 or x.size == 0 or x.dtype.kind not in 'fiu' or not np.all(np.isfinite(x.astype('f8'))):
+            return on.count('online_constructions_outside_domain')
+        given = kw.get('bkpt') if kw.get('bkpt') is not None else kw.get('placed')
+        if given is not None:
+            gv = np.asarray(given, dtype='f8').ravel()
+            if gv.size == 0 or not np.all(np.isfinite(gv)) or np.any(np.diff(gv) < 0):
+                return on.count('online_constructions_outside_domain')     # the caller's breakpoints are not in order
+        if kw.get('bkpt') is None and kw.get('placed') is None and kw.get('bkspace') is None and kw.get('nbkpts') is None \
+                and kw.get('everyn') is not None and x.size // int(kw['everyn']) < 2:
+            return on.count('online_constructions_open_finding_everyn_single_breakpoint')
+        if kw.get('everyn') is not None and kw.get('bkpt') is None and kw.get('placed') is None and kw.get('bkspace') is None \
+                and kw.get('nbkpts') is None and np.any(np.diff(x.astype('f8')) < 0):
+            return on.count('online_constructions_outside_domain')         # every-n-th point of data that are not in order
+        kk = int(kw.get('nord', 4))
+        t = np.asarray(s.breakpoints, dtype='f8')
+        nt = t.size
+        xmin, xmax = float(x.min()), float(x.max())
+        tol = 4 * EPS32 * max(abs(xmin), abs(xmax), 1e-300)
+        on.count('online_constructions_judged')
+        if not np.all(np.isfinite(t)):
+            return on.fail('knots', 'non-finite knot in a spline set constructed inside another call', option={n: repr(v)[:80] for n, v in kw.items() if n != 'x' and v is not None})
+        if np.any(np.diff(t) < 0):
+            return on.fail('knots', 'knot vector constructed inside another call is not non-decreasing (%d places)' % int((np.diff(t) < 0).sum()),
+                           knots=t[:12], option={n: repr(v)[:80] for n, v in kw.items() if n != 'x' and v is not None})
+        if nt < 2 * kk:
+            return on.fail('knots', 'fewer than two breakpoints: %d knots for order %d' % (nt, kk))
+        n = nt - kk
+        if not (t[kk - 1] <= xmin + tol and t[n] >= xmax - tol):
+            on.fail('covers', 'breakpoint range [%r, %r] of a set constructed inside another call does not cover its data range [%r, %r]'
+                    % (t[kk - 1], t[n], xmin, xmax), option={n_: repr(v)[:80] for n_, v in kw.items() if n_ != 'x' and v is not None})
+        if given is None and not (abs(t[kk - 1] - xmin) <= tol and abs(t[n] - xmax) <= tol):
+            on.fail('padding', 'computed breakpoints must start/end at the data extremes with order-1 extra knots outside: t[k-1]=%r xmin=%r '
+                    't[n]=%r xmax=%r' % (t[kk - 1], xmin, t[n], xmax))
+
+    def online_value(self, on, a, k, r, st):
+        s = a[0]
+        on.count('online_value_calls')
+        # (an action matrix handed in by the library itself - iterfit does that - belongs to these points: judged like any call)
+        if len(a) != 2 or k.get('x2') is not None or getattr(s, 'npoly', 1) != 1:
+            return on.count('online_value_calls_outside_domain')
+        on.count('online_value_calls_with_action_from_the_caller', k.get('action') is not None)
+        x = np.asarray(a[1])
+        y, mask = r
+        if x.ndim != 1 or x.size == 0 or x.dtype.kind != 'f':
+            return on.count('online_value_calls_outside_domain')
+        kk = int(s.nord)
+        bm = np.asarray(s.mask, dtype=bool)
+        t = np.asarray(s.breakpoints, dtype='f8')[bm]
+        n = t.size - kk
+        c = np.asarray(s.coeff, dtype='f8')
+        if c.ndim != 1 or c.size != bm.size - kk:
+            return on.count('online_value_calls_outside_domain')
+        c = c[bm[kk:]]
+        if n < kk or c.size != n or not np.all(np.isfinite(t)) or np.any(np.diff(t) < 0) or not np.all(np.isfinite(c)):
+            return on.count('online_value_calls_outside_domain')
+        masked = not bool(bm.all())
+        on.count('online_value_calls_masked_breakpoints', masked)
+        xd = x.astype('f8')
+        fin = np.isfinite(xd)
+        bp = t[kk - 1:n + 1]
+        inside = fin & (xd >= bp[0]) & (xd <= bp[-1])
+        y = np.asarray(y)
+        mask = np.asarray(mask)
+        if y.shape != x.shape or mask.shape != x.shape:
+            return on.fail('value', 'value() called inside another call returned shapes %s / %s for %s points' % (y.shape, mask.shape, x.shape))
+        if not masked and fin.all():
+            if not np.array_equal(mask.astype(bool), inside):
+                on.fail('mask', 'validity mask differs from "inside the breakpoint range" at %d points (call made inside another entry point)'
+                        % int((mask.astype(bool) != inside).sum()), bad_points=xd[mask.astype(bool) != inside][:5], range=(bp[0], bp[-1]))
+        # value clause
+        if x.dtype == np.float32:
+            pos = np.diff(bp)
+            pos = pos[pos > 0]
+            if pos.size == 0 or pos.min() < 1e-3 * max(abs(bp[0]), abs(bp[-1]), 1e-300):
+                return on.count('online_value_calls_float32_resolution')
+        uq, mult = np.unique(bp, return_counts=True)
+        discont = uq[mult > max(kk - 1, 1)] if kk > 1 else uq[mult > 1]
+        chk = inside & ~np.isin(xd, discont)
+        if kk == 1:
+            chk &= ~np.isin(xd, bp)
+        if masked:
+            # a masked breakpoint in the padding changes which knots "the" spline has at the ends: judged only for interior masks
+            if not (bm[:kk].all() and bm[-kk:].all()):
+                return on.count('online_value_calls_end_knots_masked')
+        if chk.sum() > 4000:
+            idx = np.flatnonzero(chk)
+            keep = idx[:: max(1, idx.size // 4000)]
+            chk = np.zeros_like(chk)
+            chk[keep] = True
+        if not chk.any():
+            return
+        ref = BR.spline_value(t, kk, c, xd[chk])
+        cscale = max(float(np.abs(c).max()), 1e-300)
+        lim = (1e-10 if x.dtype == np.float64 else 3e-4) * cscale * max(1.0, kk)
+        yd = y.astype('f8')[chk]
+        on.count('online_value_points_compared', int(chk.sum()))
+        if not np.all(np.isfinite(yd)):
+            return on.fail('value', 'non-finite value inside the breakpoint range (call made inside another entry point)', order=kk)
+        err = np.abs(yd - ref)
+        if float(err.max()) > lim:
+            w = int(np.argmax(err))
+            on.fail('value', 'value differs from the Cox-de Boor spline of the object\'s knots and coefficients by %.3g (limit %.3g) at x=%r: '
+                    'got %r ref %r (call made inside another entry point%s)' % (err.max(), lim, xd[chk][w], yd[w], ref[w],
+                                                                               ', masked breakpoints' if masked else ''),
+                    order=kk, knots=t[:12], nknots=int(t.size), npoints=int(x.size))
+
+    def run_xwork(self, case, out):
+        self.online.begin()
+        try:
+            if case['driver'] == 'suite':
+                rc = xwork.run_suite_files(repo_path(), case['files'])
+                out.count('xwork_suite_runs')
+                out.count('xwork_suite_exit_%d' % rc)
+            else:
+                self.xw.run(case, out)
+        finally:
+            fails, counts = self.online.end()
+        for n, v in counts.items():
+            out.count(n, v)
+        for clause, msg, detail in fails:
+            out.fail(clause, msg, **detail)
+        out.nontrivial = counts.get('online_value_points_compared', 0) > 0
+        out.info.update(driver=case['driver'], driver_class=case.get('dcls'), online=counts)
 
     def budget(self, tier):
         k = 1 if tier == 'quick' else 80
         return {'random': 1400 * k, 'explicit_bkpt': 400 * k, 'everyn': 300 * k, 'tiny': 200 * k, 'everyn_degenerate': 40 * k,
-                'long_everyn': 4 if tier == 'quick' else 40}
+                'long_everyn': 4 if tier == 'quick' else 40,
+                'xw_iterfit': 160 if tier == 'quick' else 6000, 'xw_combine1fiber': 80 if tier == 'quick' else 3000,
+                'xw_suite': 1 if tier == 'quick' else 2}
 
     # ------------------------------------------------------------------ gen
     def gen(self, cls, rng, i):
+        if cls == 'xw_iterfit':
+            return self.xw.gen('C10', rng)
+        if cls == 'xw_combine1fiber':
+            return self.xw.gen('C11', rng)
+        if cls == 'xw_suite':
+            return {'kind': 'xwork', 'driver': 'suite', 'files': ['pydl/pydlutils/tests/test_bspline.py', 'pydl/pydlspec2d/tests/test_spec2d.py'][: 2 - (i % 2)]}
         g = np_rng(rng)
         if cls == 'long_everyn':
             # long data vectors with a breakpoint every n-th point: the number of points times the number of breakpoints beyond
@@ -212,6 +368,8 @@ class C08(Check):
         out.info.update(order=k, npts=nx, everyn=ev)
 
     def run(self, case, out):
+        if case['kind'] == 'xwork':
+            return self.run_xwork(case, out)
         if case['kind'] == 'long_everyn':
             return self.run_long_everyn(case, out)
         B = self.B
@@ -490,6 +648,8 @@ class C08(Check):
 
     def summarise(self, case):
         c = dict(case)
+        if c.get('kind') == 'xwork':
+            return {'kind': 'xwork', 'driver': c['driver'], 'driver_class': c.get('dcls'), 'files': c.get('files')}
         if 'x' in c:
             c['x'] = case['x'][:8] + ['... %d values' % len(case['x'])]
         return c
